@@ -326,7 +326,7 @@ func runC15(p *core.Program, r *core.Report) {
 	c15Untyped(p, r)
 	// the reflective and the fast call must hand the callee the same arguments: no argument cell shared between iterations
 	loopAliasRule(p, r, "R15.2", "vm")
-	stackFieldBalanceRule(p, r, "R15.2", "checker", "visitor", "collections")
+	stackFieldBalanceRule(p, r, "R15.2", "checker", "visitor", "[]reflect.Type")
 	r.Floor("R15.1", 4)
 	r.Floor("R15.2", 4)
 	r.Floor("R15.3", 10) // 12 kind cases today; a case the default already covers may be dropped
